@@ -42,3 +42,16 @@ Check c09_stream_claim_refused_no_effect : forall st p l st' c,
 Check c09_stream_publish_is_core : forall st p l,
   fst (Api.v2_stream_publish st p l) = fst (update_entries st p (Api.stream_updates l)) /\
   map fst (snd (Api.v2_stream_publish st p l)) = map fst (snd (update_entries st p (Api.stream_updates l))).
+Check c09_handler_batch_pairs : forall db l cs,
+  Api.v2_batch_resolve db l = inl cs ->
+  Forall2 (fun x c => Api.v2_resolve_actuator db (fst x) = inl (fst c) /\
+                      exists w, snd x = Some w /\ snd c = Api.from_wire w) l cs.
+Check c09_handler_batch_served : forall st p l st',
+  Api.v2_batch_actuate st p l = (st', Api.RStatus Api.OK) ->
+  exists cs, Forall2 (Proofs.Api.names_pair (st_db st)) l cs /\ batch_actuate st p cs = (st', None).
+Check c09_handler_batch_refused_no_effect : forall st p l st' c,
+  Api.v2_batch_actuate st p l = (st', Api.RStatus c) -> c <> Api.OK -> st' = st.
+Check c09_handler_actuate_served : forall st p s v st',
+  Api.v2_actuate st p s v = (st', Api.RStatus Api.OK) ->
+  exists id w, Api.v2_resolve_actuator (st_db st) s = inl id /\ v = Some w /\
+               actuate st p id (Api.from_wire w) = (st', None).
